@@ -361,36 +361,20 @@ func c11Recursion(w *World, r *Report) {
 	}{{"isFeatureValid", 2}, {"validateGrouping", 2}} {
 		f := w.Method("compile", "Compiler", c.fn)
 		fd, _ := w.FuncDecl(f)
-		set := paramObj(p, fd, c.setIdx)
+		sf := w.SSAFunc(f)
+		g := ssaCycleGuard(w, sf, func(call *ssa.Call) bool { return call.Call.StaticCallee() == sf })
 		testIdx, insIdx, recIdx, delIdx := -1, -1, -1, -1
-		for i, s := range fd.Body.List {
-			ast.Inspect(s, func(x ast.Node) bool {
-				switch y := x.(type) {
-				case *ast.IfStmt:
-					if as, ok := y.Init.(*ast.AssignStmt); ok && len(as.Rhs) == 1 {
-						if ix, ok := as.Rhs[0].(*ast.IndexExpr); ok && objOfIdent(p, ix.X) == set && testIdx < 0 {
-							// body must leave with an error
-							if len(returnsIn(y.Body)) > 0 || len(callsTo(p, y.Body, w.Method("compile", "Compiler", "error"))) > 0 {
-								testIdx = i
-							}
-						}
-					}
-				case *ast.AssignStmt:
-					if len(y.Lhs) == 1 {
-						if ix, ok := y.Lhs[0].(*ast.IndexExpr); ok && objOfIdent(p, ix.X) == set && insIdx < 0 {
-							insIdx = i
-						}
-					}
-				case *ast.CallExpr:
-					if calleeOf(p, y) == f && recIdx < 0 {
-						recIdx = i
-					}
-					if id, ok := y.Fun.(*ast.Ident); ok && id.Name == "delete" && len(y.Args) == 2 && objOfIdent(p, y.Args[0]) == set {
-						delIdx = i
-					}
-				}
-				return true
-			})
+		if g.tested {
+			testIdx = 0
+		}
+		if g.inserted {
+			insIdx = 1
+		}
+		if g.rec {
+			recIdx = 2
+		}
+		if g.pruned {
+			delIdx = 3
 		}
 		r.Check(testIdx >= 0 && insIdx > testIdx && recIdx > insIdx, "R11.3", c.fn+" cycle guard", fd.Pos(), "visited set tested, then inserted, before the recursive call",
 			"reference-following recursion without a test-then-insert guard before the recursive call: a reference cycle recurses until the stack overflows")
@@ -401,40 +385,11 @@ func c11Recursion(w *World, r *Report) {
 	bbt := w.Method("compile", "Compiler", "BuildBaseType")
 	bfd, _ := w.FuncDecl(bbt)
 	bt := w.Method("compile", "Compiler", "BuildType")
-	inProg := false
-	recurses := len(allCallsTo(p, bfd.Body, bt)) > 0
-	// a map (field or param) that is tested with an error exit, set to true, and deleted (deferred or after)
-	var setField *types.Var
-	testIdx, insIdx, recIdx := -1, -1, -1
-	hasDelete := false
-	for i, s := range bfd.Body.List {
-		ast.Inspect(s, func(x ast.Node) bool {
-			switch y := x.(type) {
-			case *ast.IfStmt:
-				if ix, ok := ast.Unparen(y.Cond).(*ast.IndexExpr); ok {
-					if f := fieldOfSel(p, ix.X); f != nil && len(callsTo(p, y.Body, w.Method("compile", "Compiler", "error"))) > 0 {
-						setField = f
-						testIdx = i
-					}
-				}
-			case *ast.AssignStmt:
-				if len(y.Lhs) == 1 {
-					if ix, ok := y.Lhs[0].(*ast.IndexExpr); ok && setField != nil && fieldOfSel(p, ix.X) == setField {
-						insIdx = i
-					}
-				}
-			case *ast.CallExpr:
-				if calleeOf(p, y) == bt && recIdx < 0 {
-					recIdx = i
-				}
-				if id, ok := y.Fun.(*ast.Ident); ok && id.Name == "delete" && setField != nil && fieldOfSel(p, y.Args[0]) == setField {
-					hasDelete = true
-				}
-			}
-			return true
-		})
-	}
-	inProg = testIdx >= 0 && insIdx > testIdx && recIdx > insIdx && hasDelete
+	bg := ssaCycleGuard(w, w.SSAFunc(bbt), func(call *ssa.Call) bool {
+		return call.Call.StaticCallee() != nil && call.Call.StaticCallee().Object() == types.Object(bt)
+	})
+	recurses := bg.rec
+	inProg := bg.tested && bg.inserted && bg.pruned
 	r.Check(recurses && inProg, "R11.3", "BuildBaseType typedef chain guard", bfd.Pos(), "in-progress set tested, inserted, removed around the descent into the typedef's type",
 		"the typedef chain is followed (LookupType → BuildType) without remembering which typedefs are being resolved: `typedef a { type a; }` recurses until the process aborts with a stack overflow")
 	// validateGrouping enumerates uses through a recursive walk
@@ -593,4 +548,189 @@ func c11Recover(w *World, r *Report) {
 		}
 		r.Check(deferred, "R11.5", "Compiler."+f.Name(), fd.Pos(), "defers c.recover(&err)", "this phase can raise Compiler.error but does not defer Compiler.recover: the error escapes as a panic")
 	}
+}
+
+type cycleGuard struct {
+	rec      bool // a recursive descent exists
+	tested   bool // a set is looked up and a hit leads to an error exit, on the way to ...
+	inserted bool // ... the insertion into that set, which comes before the descent
+	pruned   bool // and the entry is removed again after the descent (or in a deferred call)
+}
+
+// ssaCycleGuard finds, by dominance, the test-then-insert discipline of a set
+// (a map) around the recursive call(s) selected by isRec, whatever the
+// arrangement of the statements (guard clauses, else branches, helpers are
+// not followed).
+func ssaCycleGuard(w *World, f *ssa.Function, isRec func(*ssa.Call) bool) cycleGuard {
+	var g cycleGuard
+	if f == nil {
+		return g
+	}
+	cerr := w.Method("compile", "Compiler", "error")
+	// identity of a map operand: the field, parameter or local it is read from
+	ident := func(v ssa.Value) string {
+		switch x := v.(type) {
+		case *ssa.UnOp:
+			if fa, ok := x.X.(*ssa.FieldAddr); ok {
+				st := fa.X.Type().Underlying().(*types.Pointer).Elem().Underlying().(*types.Struct)
+				return "field:" + st.Field(fa.Field).Name()
+			}
+			if a, ok := x.X.(*ssa.Alloc); ok {
+				return "local:" + a.Comment
+			}
+		case *ssa.Parameter:
+			return "param:" + x.Name()
+		case *ssa.Phi:
+			return "local:" + x.Comment
+		}
+		return v.Name()
+	}
+	var recs []*ssa.Call
+	for _, b := range f.Blocks {
+		for _, in := range b.Instrs {
+			if c, ok := in.(*ssa.Call); ok && isRec(c) {
+				recs = append(recs, c)
+			}
+		}
+	}
+	g.rec = len(recs) > 0
+	if !g.rec {
+		return g
+	}
+	before := func(a, b ssa.Instruction) bool { // a executes before b on every path to b
+		if a.Block() == b.Block() {
+			for _, in := range a.Block().Instrs {
+				if in == a {
+					return true
+				}
+				if in == b {
+					return false
+				}
+			}
+		}
+		return a.Block().Dominates(b.Block())
+	}
+	errorExit := func(b *ssa.BasicBlock) bool {
+		for _, eb := range f.Blocks {
+			if !b.Dominates(eb) {
+				continue
+			}
+			for _, in := range eb.Instrs {
+				switch x := in.(type) {
+				case ssa.CallInstruction:
+					if sc := x.Common().StaticCallee(); sc != nil && sc.Object() == types.Object(cerr) {
+						return true
+					}
+				case *ssa.Return:
+					for _, rv := range x.Results {
+						if _, isErr := rv.Type().Underlying().(*types.Interface); isErr && rv.Type().String() == "error" && !isNilConst(rv) {
+							return true
+						}
+					}
+				case *ssa.Panic:
+					return true
+				}
+			}
+		}
+		return false
+	}
+	for _, b := range f.Blocks {
+		for _, in := range b.Instrs {
+			mu, ok := in.(*ssa.MapUpdate)
+			if !ok {
+				continue
+			}
+			id := ident(mu.Map)
+			// inserted before every descent
+			insOK := true
+			for _, rc := range recs {
+				if !before(mu, rc) {
+					insOK = false
+				}
+			}
+			if !insOK {
+				continue
+			}
+			// tested before the insertion, a hit leading to an error exit
+			tested := false
+			for _, b2 := range f.Blocks {
+				for _, in2 := range b2.Instrs {
+					lk, ok := in2.(*ssa.Lookup)
+					if !ok || ident(lk.X) != id || !before(lk, mu) {
+						continue
+					}
+					// the value (or ok) decides an If one of whose branches is an error exit
+					var vals []ssa.Value
+					vals = append(vals, lk)
+					for _, ref := range *lk.Referrers() {
+						if ex, ok := ref.(*ssa.Extract); ok {
+							vals = append(vals, ex)
+						}
+					}
+					for _, v := range vals {
+						for _, ref := range *v.Referrers() {
+							iff, ok := ref.(*ssa.If)
+							if !ok {
+								if u, isNot := ref.(*ssa.UnOp); isNot && u.Op == token.NOT {
+									for _, r2 := range *u.Referrers() {
+										if i2, ok := r2.(*ssa.If); ok {
+											iff = i2
+										}
+									}
+								}
+							}
+							if iff == nil {
+								continue
+							}
+							for _, succ := range iff.Block().Succs {
+								if len(succ.Preds) == 1 && errorExit(succ) {
+									tested = true
+								}
+							}
+						}
+					}
+				}
+			}
+			// removed after the descent, or by a deferred call
+			pruned := false
+			for _, b2 := range f.Blocks {
+				for _, in2 := range b2.Instrs {
+					switch x := in2.(type) {
+					case *ssa.Call:
+						if bi, ok := x.Call.Value.(*ssa.Builtin); ok && bi.Name() == "delete" && len(x.Call.Args) == 2 && ident(x.Call.Args[0]) == id {
+							// after the insertion and not ahead of a descent (the descent may sit in a loop that runs zero times)
+							okDel := before(mu, x)
+							for _, rc := range recs {
+								if before(x, rc) {
+									okDel = false
+								}
+							}
+							if okDel {
+								pruned = true
+							}
+						}
+					case *ssa.Defer:
+						if bi, ok := x.Call.Value.(*ssa.Builtin); ok && bi.Name() == "delete" && len(x.Call.Args) == 2 && ident(x.Call.Args[0]) == id {
+							pruned = true
+						}
+						if mc, ok := x.Call.Value.(*ssa.MakeClosure); ok {
+							for _, cb := range mc.Fn.(*ssa.Function).Blocks {
+								for _, ci := range cb.Instrs {
+									if dc, ok := ci.(*ssa.Call); ok {
+										if bi, ok := dc.Call.Value.(*ssa.Builtin); ok && bi.Name() == "delete" {
+											pruned = true
+										}
+									}
+								}
+							}
+						}
+					}
+				}
+			}
+			g.inserted = true
+			g.tested = g.tested || tested
+			g.pruned = g.pruned || pruned
+		}
+	}
+	return g
 }
